@@ -13,7 +13,7 @@ def check(run, replay=None):
               "by the harness's own adversary (merlin + verif_gf128_mul) AND by the model's adv_receiver (byte-equal messages "
               "required); every message goes to the REAL sender and to the model sender, verdicts and outputs must match; "
               "thorough: every one of the 73,856 bit positions against the real sender, 2000 calibrated deviations; "
-              "non-trivial = messages other than the honest ones"),
+              "non-trivial = messages other than the honest ones Compensating alterations (same XOR mask in two / sixteen bytes of a row of t, x, u or in the same byte of two rows); honest instances with all-zero / all-one choices and tapes (x = 0)."),
         assumptions=["merlin framing is injective in (label, message) sequences (the model's oracle input is the structured operation list)",
                      "the field multiplication of the model is gf_spec_bytes; its equality with binary_field_multiply_gf_2_128 is C19",
                      "rejection of a tampered u is proved as 'accepted => explicit GF(2^128) equations on the fresh challenges "
